@@ -32,11 +32,28 @@ pub fn install_panic_hook() {
         } else {
             String::new()
         };
+        // make the key specific: panic site plus the first caller frame inside /repo/crates in another crate
+        let mut loc = loc;
+        if msg != "verif-sched-abort" && loc.starts_with("crates/") {
+            let bt = std::backtrace::Backtrace::force_capture().to_string();
+            let site_crate = loc.split('/').take(2).collect::<Vec<_>>().join("/");
+            for l in bt.lines() {
+                let l = l.trim();
+                if let Some(rest) = l.strip_prefix("at /repo/") {
+                    let mut it = rest.split(':');
+                    let (f, ln) = (it.next().unwrap_or(""), it.next().unwrap_or(""));
+                    if f.starts_with("crates/") && !f.starts_with(&format!("{site_crate}/")) {
+                        loc = format!("{loc}<-{f}:{ln}");
+                        break;
+                    }
+                }
+            }
+        }
         LAST_PANIC.with(|p| *p.borrow_mut() = Some(format!("{loc}: {msg}")));
         if msg == "verif-sched-abort" {
             return;
         }
-        if !QUIET.with(|q| *q.borrow()) {
+        if !QUIET.with(|q| *q.borrow()) || std::env::var("VERIF_LOUD").is_ok() {
             prev(info);
         }
     }));
